@@ -116,17 +116,13 @@ EXPORT rsize_t _wcsnlen_s_chk(const wchar_t *str, rsize_t smax, size_t strbos)
     if (z) smax = z - str;
     return smax;
 #else
-    if (strbos != BOS_UNKNOWN) {
-        /* Dont touch past strbos */
-        for (z = str; smax && *str != 0; smax--, str++) {
-            strbos -= sizeof(wchar_t);
-            if (unlikely(strbos <= 0))
-                return smax ? (rsize_t)(str - z) : orig_smax;
-        }
-    } else {
-        for (z = str; smax && *str != 0; smax--, str++)
-            ;
+    /* Dont touch past strbos */
+    if (strbos != BOS_UNKNOWN && smax > strbos / sizeof(wchar_t)) {
+        smax = strbos / sizeof(wchar_t);
+        orig_smax = smax;
     }
+    for (z = str; smax && *str != 0; smax--, str++)
+        ;
     return smax ? (rsize_t)(str - z) : orig_smax;
 #endif
 }
